@@ -15,16 +15,16 @@
 (***************************************************************************)
 EXTENDS Emit
 
-Src == IF Thorough THEN Shapes(3, 3) ELSE Shapes(2, 2) \cup {<<3>>, <<1, 3>>, <<2, 1, 2>>, <<1, 1, 1>>}
+Src == (IF Thorough THEN Shapes(3, 3) ELSE Shapes(2, 2) \cup {<<3>>, <<1, 3>>, <<2, 1, 2>>, <<1, 1, 1>>}) \cup {<<5>>, <<4, 1>>, <<1, 5>>}
 SrcSeq == SetToSeq(Src)
-Expansions(dims) == {t \in [1..Len(dims) -> 1..3] : \A i \in DOMAIN dims : dims[i] = 1 \/ t[i] = dims[i]}
+Expansions(dims) == {t \in [1..Len(dims) -> 1..5] : \A i \in DOMAIN dims : (dims[i] = 1 /\ t[i] \in {1, 2, 3}) \/ t[i] = dims[i]}
 Leading == IF Thorough THEN {<<>>, <<1>>, <<2>>, <<3>>, <<2, 1>>, <<1, 2>>, <<2, 2>>} ELSE {<<>>, <<1>>, <<2>>, <<3, 1>>, <<1, 2>>}
 BcastDescs == Flatten2([i \in DOMAIN SrcSeq |->
                  LET t == SetToSeq({l \o e : l \in Leading, e \in Expansions(SrcSeq[i])})
                  IN [j \in DOMAIN t |-> <<"bc", SrcSeq[i], t[j]>>]])
 
 Subsets2 == <<<<TRUE, TRUE>>, <<TRUE, FALSE>>, <<FALSE, TRUE>>>>
-PGrid == IF Thorough THEN Shapes(3, 3) \cup Shapes(4, 2) ELSE Shapes(3, 2) \cup {<<3>>, <<1, 3>>, <<3, 1>>}
+PGrid == (IF Thorough THEN Shapes(3, 3) \cup Shapes(4, 2) ELSE Shapes(3, 2) \cup {<<3>>, <<1, 3>>, <<3, 1>>}) \cup {<<5>>, <<4, 5>>, <<4, 1>>, <<1, 5>>}
 Pairs == SetToSeq({p \in PGrid \X PGrid : BCompatible(p[1], p[2]) /\ p[1] # p[2]})
 AOps == <<"add", "sub", "mul", "div">>
 ArithDescs == [i \in DOMAIN Pairs |-> <<"ar", AOps[((i + Seed) % 4) + 1], Pairs[i][1], Pairs[i][2], Subsets2[((i \div 4) % 3) + 1]>>]
@@ -36,7 +36,8 @@ DotDescs == Flatten2([i \in DOMAIN BPairs |-> [t \in 1..3 |-> <<"ar", "dot", BPa
 MMDescs == Flatten2([i \in DOMAIN BPairs |-> [t \in 1..3 |->
               <<"ar", "matmul", BPairs[i][1] \o <<2, 3>>, BPairs[i][2] \o <<3, 2>>, Subsets2[t]>>]])
 
-All == BcastDescs \o (IF Thorough THEN ArithAll ELSE ArithDescs) \o DotDescs \o MMDescs
+BigBc == << <<"bc", <<4, 1>>, <<4, 5>>>>, <<"bc", <<1, 5>>, <<4, 5>>>>, <<"bc", <<5>>, <<2, 5>>>>, <<"bc", <<4, 1>>, <<2, 4, 5>>>>, <<"bc", <<1, 1>>, <<6, 4>>>> >>
+All == BigBc \o BcastDescs \o (IF Thorough THEN ArithAll ELSE ArithDescs) \o DotDescs \o MMDescs
 Descs == MyCases(All)
 
 WithG(name, ins, doms, op, par, ydims) ==
